@@ -286,3 +286,7 @@ def run(ctx: Ctx, rep: Report, tier: str):
     from rules.C08 import C08 as _C08c
     from rules.common import alias as _alias_c
     _alias_c(rep, ["C08.R5"], "C07.R12", "a failed storage write is retried by the next commit: the dirty set is emptied only after the loop over it completed (C08.R5)", 1, lambda: _C08c(ctx, rep).r5(), keep=lambda i: i.key.startswith("storage_commit|"))
+    from rules.decisions import decision_table, table_sites
+    rep.rule("C07.DT", "decision table (rules/decisions.json) of the functions whose writes a crash can separate: the step frame, the storage write-through, the first-step initialisation and the cursor save: for every function and every action shape the set of states - over the function's guard atoms, "
+             "including the `with` blocks and `try` scopes the action stands in - in which the action is taken equals the recorded one, and actions keep their order", 1)
+    section(rep, lambda: decision_table(ctx, rep, "C07.DT", "C07"))
